@@ -122,7 +122,15 @@ func spec_recv(i int) Token  { panic("spec") }
 func spec_recvOK(i int) bool { panic("spec") }
 func spec_E() int            { panic("spec") }
 
+// sender side of the same hand-over: the k-th send delivers spec_sent(k) (ghost counter `sent`). Under A-seq
+// spec_recv(k) == spec_sent(k) while the channel is open; TOKS is the sender-side proof of what the receiver
+// assumes as TOK.
+func spec_sent(i int) Token { panic("spec") }
+
 //@ ghostvar fetched int
+//@ ghostvar sent int
+//@ def TOKS(l *lexer, k int) = 0 <= spec_sent(k).EndAt && spec_sent(k).EndAt <= len(l.input) && (spec_sent(k).Kind == Charater ==> len(spec_sent(k).Value) >= 1)
+//@ def allTOKS(l *lexer, from int) = forall k int :: from <= k && k < sent ==> TOKS(l, k)
 
 // Once the lexer has closed the channel the parser must see end of input - not a zero Token, which no parser
 // loop treats as a reason to stop.
@@ -221,12 +229,13 @@ func spec_E() int            { panic("spec") }
 //@ def wfL(l *lexer) = l != nil && 0 <= l.start && l.start <= l.end && l.end <= len(l.input) && 0 <= l.width
 
 //@ func (*lexer).next
-//@ props C13
+//@ props C13 C11
 //@ results r
 //@ requires wfL(l)
 //@ ensures [C13] wfL(l) && l.start == old(l.start)
 //@ ensures [C13] old(l.end) >= len(l.input) ==> r == eof && l.end == old(l.end) && l.width == 0
 //@ ensures [C13] old(l.end) < len(l.input) ==> r >= 0 && l.width >= 1 && l.end == old(l.end) + l.width
+//@ ensures [C11] old(l.end) < len(l.input) ==> r == rune_at(l.input[old(l.end):], 0) && r <= 1114111 && !(55296 <= r && r <= 57343)
 //@ modifies l.end, l.width, l.prev, l.loc
 
 //@ func (*lexer).backup
@@ -249,28 +258,32 @@ func spec_E() int            { panic("spec") }
 //@ modifies l.start, l.startLoc
 
 //@ func (*lexer).emitValue
-//@ props C13
+//@ props C13 C11
 //@ requires wfL(l)
 //@ ensures wfL(l) && l.end == old(l.end) && l.start == l.end
-//@ modifies l.start, l.startLoc
+//@ ensures sent == old(sent) + 1 && spec_sent(old(sent)).Kind == t && spec_sent(old(sent)).Value == value && spec_sent(old(sent)).EndAt == l.end
+//@ modifies l.start, l.startLoc, sent
 
 //@ func (*lexer).emit
-//@ props C13
+//@ props C13 C11
 //@ requires wfL(l)
 //@ ensures wfL(l) && l.end == old(l.end) && l.start == l.end
-//@ modifies l.start, l.startLoc
+//@ ensures sent == old(sent) + 1 && spec_sent(old(sent)).Kind == t && spec_sent(old(sent)).Value == l.input[old(l.start):l.end] && spec_sent(old(sent)).EndAt == l.end
+//@ modifies l.start, l.startLoc, sent
 
 //@ func (*lexer).emitEOF
 //@ props C13
 //@ requires wfL(l)
 //@ ensures wfL(l) && l.end == old(l.end) && l.start == l.end
-//@ modifies l.start, l.startLoc
+//@ ensures sent == old(sent) + 1 && spec_sent(old(sent)).Kind == EOF && spec_sent(old(sent)).EndAt == 0
+//@ modifies l.start, l.startLoc, sent
 
 //@ func (*lexer).error
 //@ props C13
 //@ requires wfL(l)
 //@ ensures wfL(l) && l.end == old(l.end) && l.start == old(l.start)
-//@ modifies nothing
+//@ ensures sent == old(sent) + 1 && spec_sent(old(sent)).Kind == tokenError && spec_sent(old(sent)).EndAt == 0
+//@ modifies sent
 
 //@ func (*lexer).acceptRun
 //@ props C13
@@ -316,102 +329,129 @@ func spec_E() int            { panic("spec") }
 //@ func rootState
 //@ props C13
 //@ results next
-//@ modifies l.start, l.startLoc, l.end, l.width, l.prev, l.loc
+//@ modifies l.start, l.startLoc, l.end, l.width, l.prev, l.loc, sent
 //@ requires wfL(l)
 //@ ensures [C13] stepOK(l, rootState, next, old(l.end))
+//@ ensures [C13] sent >= old(sent) && allTOKS(l, old(sent))
 
 //@ func CommentState
 //@ props C13
 //@ results next
-//@ modifies l.start, l.startLoc, l.end, l.width, l.prev, l.loc
+//@ modifies l.start, l.startLoc, l.end, l.width, l.prev, l.loc, sent
 //@ requires wfL(l) && commentAhead(l)
 //@ ensures [C13] stepOK(l, CommentState, next, old(l.end)) && next == rootState && l.end > old(l.end)
+//@ ensures [C13] sent >= old(sent) && allTOKS(l, old(sent))
 //@ loop 0: invariant wfL(l) && l.end >= old(l.end)
 //@ loop 0: decreases len(l.input) - l.end
 //@ loop 1: invariant wfL(l) && l.end >= old(l.end)
+//@ loop 0: invariant sent >= old(sent) && allTOKS(l, old(sent))
+//@ loop 1: invariant sent >= old(sent) && allTOKS(l, old(sent))
 
 //@ func ActionQuoteState
 //@ props C13
 //@ results next
-//@ modifies l.start, l.startLoc, l.end, l.width, l.prev, l.loc
+//@ modifies l.start, l.startLoc, l.end, l.width, l.prev, l.loc, sent
 //@ requires wfL(l)
 //@ ensures [C13] stepOK(l, ActionQuoteState, next, old(l.end))
+//@ ensures [C13] sent >= old(sent) && allTOKS(l, old(sent))
 //@ loop 0: invariant wfL(l) && l.end >= old(l.end)
 //@ loop 0: decreases len(l.input) - l.end
+//@ loop 0: invariant sent >= old(sent) && allTOKS(l, old(sent))
 
 //@ func stringKindState
 //@ props C13
 //@ results next
-//@ modifies l.start, l.startLoc, l.end, l.width, l.prev, l.loc
+//@ modifies l.start, l.startLoc, l.end, l.width, l.prev, l.loc, sent
 //@ requires wfL(l)
 //@ ensures [C13] stepOK(l, stringKindState, next, old(l.end))
+//@ ensures [C13] sent >= old(sent) && allTOKS(l, old(sent))
 //@ loop 0: invariant wfL(l) && (r == eof || r >= 0) && l.end >= old(l.end)
 //@ loop 0: decreases (len(l.input) - l.end, ite(r == eof, 0, 1))
+//@ loop 0: invariant sent >= old(sent) && allTOKS(l, old(sent))
 
 //@ func IdentifyState
 //@ props C13
 //@ results next
-//@ modifies l.start, l.startLoc, l.end, l.width, l.prev, l.loc
+//@ modifies l.start, l.startLoc, l.end, l.width, l.prev, l.loc, sent
 //@ requires wfL(l)
 //@ ensures [C13] stepOK(l, IdentifyState, next, old(l.end))
+//@ ensures [C13] sent >= old(sent) && allTOKS(l, old(sent))
 //@ loop 0: invariant wfL(l) && (r == eof || r >= 0) && l.start <= l.end - l.width && l.end - l.width >= old(l.end)
 //@ loop 0: decreases (len(l.input) - l.end, ite(r == eof, 0, 1))
+//@ loop 0: invariant sent >= old(sent) && allTOKS(l, old(sent))
 
 //@ func CodeQuoteBegin
 //@ props C13
 //@ results next
-//@ modifies l.start, l.startLoc, l.end, l.width, l.prev, l.loc
+//@ modifies l.start, l.startLoc, l.end, l.width, l.prev, l.loc, sent
 //@ requires wfL(l)
 //@ ensures [C13] stepOK(l, CodeQuoteBegin, next, old(l.end))
+//@ ensures [C13] sent >= old(sent) && allTOKS(l, old(sent))
 //@ loop 0: invariant wfL(l) && vstart <= l.end
 //@ loop 0: decreases len(l.input) - l.end
 //@ loop 1: invariant wfL(l) && vstart <= l.end && l.end >= before(l.end) && (r != eof ==> l.end < len(l.input))
 //@ loop 1: decreases len(l.input) - l.end
+//@ loop 0: invariant sent >= old(sent) && allTOKS(l, old(sent))
+//@ loop 1: invariant sent >= old(sent) && allTOKS(l, old(sent))
 
 //@ func DirectiveUnionState
 //@ props C13
 //@ results next
-//@ modifies l.start, l.startLoc, l.end, l.width, l.prev, l.loc
+//@ modifies l.start, l.startLoc, l.end, l.width, l.prev, l.loc, sent
 //@ requires wfL(l)
 //@ ensures [C13] stepOK(l, DirectiveUnionState, next, old(l.end))
+//@ ensures [C13] sent >= old(sent) && allTOKS(l, old(sent))
 //@ loop 0: invariant wfL(l) && l.end >= old(l.end)
 //@ loop 0: decreases len(l.input) - l.end
 //@ loop 1: invariant wfL(l) && vstart <= l.end && level >= 1 && l.end >= old(l.end)
 //@ loop 1: decreases len(l.input) - l.end
+//@ loop 0: invariant sent >= old(sent) && allTOKS(l, old(sent))
+//@ loop 1: invariant sent >= old(sent) && allTOKS(l, old(sent))
 
+// C11: the lexeme of a character-literal token starts with the very character written between the quotes
+// (the apostrophe for the escape \'), so numbering by the lexeme's first rune is numbering by the character code
 //@ func charaterState
-//@ props C13
+//@ props C13 C11
+//@ ensures [C11] next == rootState ==> sent == old(sent) + 1 && spec_sent(old(sent)).Kind == Charater &&
+//@     rune_at(spec_sent(old(sent)).Value, 0) == ite(rune_at(l.input[old(l.end):], 0) == '\\', '\'', rune_at(l.input[old(l.end):], 0))
 //@ results next
-//@ modifies l.start, l.startLoc, l.end, l.width, l.prev, l.loc
+//@ modifies l.start, l.startLoc, l.end, l.width, l.prev, l.loc, sent
 //@ requires wfL(l)
 //@ ensures [C13] stepOK(l, charaterState, next, old(l.end))
+//@ ensures [C13] sent >= old(sent) && allTOKS(l, old(sent))
 
 //@ func ActionState
 //@ props C13
 //@ results next
-//@ modifies l.start, l.startLoc, l.end, l.width, l.prev, l.loc
+//@ modifies l.start, l.startLoc, l.end, l.width, l.prev, l.loc, sent
 //@ requires wfL(l)
 //@ ensures [C13] stepOK(l, ActionState, next, old(l.end))
+//@ ensures [C13] sent >= old(sent) && allTOKS(l, old(sent))
 
 //@ func DirectiveState
 //@ props C13
 //@ results next
-//@ modifies l.start, l.startLoc, l.end, l.width, l.prev, l.loc
+//@ modifies l.start, l.startLoc, l.end, l.width, l.prev, l.loc, sent
 //@ requires wfL(l) && l.end >= 1
 //@ ensures [C13] stepOK(l, DirectiveState, next, old(l.end))
+//@ ensures [C13] sent >= old(sent) && allTOKS(l, old(sent))
 
 //@ func DirectiveOtherState
 //@ props C13
 //@ results next
-//@ modifies l.start, l.startLoc, l.end, l.width, l.prev, l.loc
+//@ modifies l.start, l.startLoc, l.end, l.width, l.prev, l.loc, sent
 //@ requires wfL(l)
 //@ ensures [C13] stepOK(l, DirectiveOtherState, next, old(l.end))
+//@ ensures [C13] sent >= old(sent) && allTOKS(l, old(sent))
 
 // the lexer goroutine: finitely many state transitions (each either consumes input or lowers the rank)
 //@ func (*lexer).run
 //@ props C13
 //@ requires wfL(l)
+// every token the lexer goroutine sends satisfies what the parser assumes about received tokens (TOK)
+//@ ensures [C13] allTOKS(l, old(sent))
 //@ loop 0: invariant wfL(l) && isState(state) && (state == CommentState ==> commentAhead(l)) && (state == DirectiveState ==> l.end >= 1)
+//@ loop 0: invariant sent >= old(sent) && allTOKS(l, old(sent))
 //@ loop 0: decreases (len(l.input) - l.end, rank(state))
 
 //@ func (*parser).parseTypeList
@@ -477,6 +517,8 @@ func spec_E() int            { panic("spec") }
 //@ before_stmt [C04] "g.InsertNewRules(r)" forall k int :: 0 <= k && k < len(r.RighPart) ==> r.RighPart[k] == g.SymbolsMap[onerule.RighPart[k].Name]
 //@ loop 2: invariant [C04] len(g.ProductoinRules) == 1 + idx2
 //@ loop 3: invariant [C04] len(rightsyms) == idx3 && (forall k int :: 0 <= k && k < idx3 ==> rightsyms[k] == g.SymbolsMap[onerule.RighPart[k].Name])
+// a nonterminal identifier (left-hand side of a rule, %type or %start name) becomes a nonterminal symbol, so the check below sees it
+//@ before_stmt [C12] "g.InsertNewSymbol(sy)" sy.IsNonTerminator == (id.IDTyp == NONTERMID) && sy.CanTerminate == (id.IDTyp != NONTERMID)
 //@ loop 4: invariant [C12] forall i int :: 0 <= i && i < idx4 && g.Symbols[i].IsNonTerminator ==> has(g.VnSet, g.Symbols[i])
 //@ before_stmt [C12] "g.ResolveSymbols()" forall i int :: 0 <= i && i < len(g.Symbols) && g.Symbols[i].IsNonTerminator ==> has(g.VnSet, g.Symbols[i])
 //@ before_stmt [C12] "item_var := item.NewItem(0, 0)" forall s *symbol.Symbol :: has(g.VnSet, s) ==> s.CanTerminate
